@@ -101,7 +101,17 @@ class Env(object):
         return self.syms[name]
 
 
-def _apply(op, x, y):
+SYM = {"add": E.OP_ADD, "sub": E.OP_MIN, "mul": E.OP_MUL, "and": E.OP_AND, "or": E.OP_OR, "xor": E.OP_XOR,
+       "lsl": E.OP_LSL, "lsr": E.OP_LSR, "asr": E.OP_ASR, "ror": E.OP_ROR, "rol": E.OP_ROL, "eq": E.OP_EQ, "ne": E.OP_NEQ,
+       "ltu": E.OP_LTU, "geu": E.OP_GEU, "lt": E.OP_LT, "le": E.OP_LE, "gt": E.OP_GT, "ge": E.OP_GE, "pow": E.OP_MUL2,
+       "div": E.OP_DIV, "mod": E.OP_MOD}
+
+
+def _apply(op, x, y, ctor="api"):
+    if ctor == "oper" and isinstance(x, E.exp) and isinstance(y, E.exp):
+        # the other public way to build an expression: oper(symbol, l, r), used by the
+        # architecture semantics; no short-cut on syntactically equal operands
+        return E.oper(SYM[op], x, y)
     if op == "add": return x + y
     if op == "sub": return x - y
     if op == "mul": return x * y
@@ -149,7 +159,7 @@ def build(rc, env, nodes):
     elif k == "b":
         x = build(rc[2], env, nodes)
         y = build(rc[3], env, nodes)
-        e = _apply(rc[1], x, y)
+        e = _apply(rc[1], x, y, getattr(env, "ctor", "api"))
     elif k == "slc":
         x = build(rc[1], env, nodes)
         e = x[rc[2]:rc[3]]
@@ -356,13 +366,17 @@ def _value_clauses(post, tag, r, wr, refv, rho, allow_top):
 
 
 @factory
-def tree(recipe, w, world, route, threshold=0):
+def tree(recipe, w, world, route, threshold=0, late=False, ctor="api"):
+    """late=True: the expression is built with the complexity threshold off and the threshold
+    is switched on just before the route's simplify/eval (sub-expressions then turn into top
+    *during* simplification)"""
     rc = _tup(recipe)
     wr = rwidth(rc, w)
     wmax = rmaxwidth(rc, w)
 
     def body(V):
         env = Env(w, world, V)
+        env.ctor = ctor
         nodes = []
         pre = []
         refv = ref(rc, env, pre)
@@ -370,6 +384,8 @@ def tree(recipe, w, world, route, threshold=0):
             pass
         V.assume(And(pre))
         e = build(rc, env, nodes)
+        if late:
+            conf.Cas.complexity = threshold
         rho = env.vals
         post = {}
         post["C12 built: width"] = (e.size == wr) if isinstance(e, E.exp) else False
@@ -409,7 +425,7 @@ def tree(recipe, w, world, route, threshold=0):
         return post
     W = 2 * wmax + 10
     mode = choose_mode(rc, w)
-    oid = "T/%s/w=%d/%s/%s%s" % (show(rc), w, world, route, "/thr=%d" % threshold if threshold else "")
+    oid = "T/%s/w=%d/%s/%s%s%s" % (show(rc), w, world, route, "/thr=%d" % threshold if threshold else "", "late" if late else "") + ("/oper" if ctor == "oper" else "")
     return Obligation(oid, body, ["C01", "C12", "C13"],
                       ["amoco.cas.expressions:oper", "amoco.cas.expressions:op.simplify", "amoco.cas.expressions:uop.simplify",
                        "amoco.cas.expressions:eqn1_helpers", "amoco.cas.expressions:eqn2_helpers", "amoco.cas.expressions:slicer",
@@ -420,7 +436,7 @@ def tree(recipe, w, world, route, threshold=0):
                        "amoco.cas.expressions:slc.eval", "amoco.cas.mapper:mapper.__call__", "amoco.cas.mapper:mapper.__setitem__",
                        "amoco.cas.mapper:mapper.R"],
                       mode=mode, W=W, level="Bsym", bound="expression trees of depth <= 3 from the recipe enumeration; widths from the listed set",
-                      before_path=_set_threshold(threshold), samples=6, index_limit=max(64, wmax + 8), maxpaths=3000,
+                      before_path=_set_threshold(0 if late else threshold), samples=6, index_limit=max(64, wmax + 8), maxpaths=3000,
                       vc_timeout_ms=8000, budget_s=40)
 
 
@@ -744,6 +760,18 @@ def triggers(w):
         ("b", "add", ("tst", ("r", "f"), a, b), K(1)),
         ("b", "ror", a, K(0)), ("b", "rol", a, K(0)),
     ]
+    for op in SAMEW + CMPU + CMPS:
+        T.append(("b", op, a, a))
+        if op not in SHIFT:
+            T.append(("b", op, ("b", "add", a, b), ("b", "add", a, b)))
+    ab, ba = ("b", "add", a, b), ("b", "add", b, a)
+    for op in ("eq", "ne", "ltu", "geu", "lt", "le", "gt", "ge", "sub", "xor", "and", "or"):
+        T.append(("b", op, ab, ba))                    # equal only after operand ordering
+        T.append(("b", op, ("b", "xor", a, b), ("b", "xor", b, a)))
+    deep = ("b", "add", ("b", "mul", a, b), ("b", "xor", a, ("b", "sub", b, a)))
+    T += [("slc", deep, 0, max(1, w // 2)), ("slc", deep, w // 2, w), ("zx", deep, w + 4), ("sx", deep, 2 * w),
+          ("tst", ("b", "eq", deep, a), deep, b), ("cat", (deep, a)), ("u", "neg", deep), ("u", "inv", deep),
+          ("b", "and", deep, K(mask)), ("b", "lsr", deep, K(1)), ("slc", ("u", "inv", deep), 0, max(1, w // 2))]
     if w > 1:
         T += [("b", "ror", a, K(1)), ("b", "rol", a, K(w - 1)), ("b", "ror", K(mask | 1), ("k", 1, w))]
         T = [t for t in T if not (t[0] == "b" and t[1] in ROT and _is_const(t[2]))]
@@ -767,15 +795,15 @@ def obligations(prop, tier, seed):
     seen = set()
     del SKIPPED[:]
 
-    def add(rc, w, world, route, thr=0, optional=True):
-        key = (rc, w, world, route, thr)
+    def add(rc, w, world, route, thr=0, optional=True, late=False, ctor="api"):
+        key = (rc, w, world, route, thr, late, ctor)
         if key in seen:
             return
         seen.add(key)
         if choose_mode(rc, w) is None:
             SKIPPED.append((show(rc), w))
             return
-        o = tree(recipe=rc, w=w, world=world, route=route, threshold=thr)
+        o = tree(recipe=rc, w=w, world=world, route=route, threshold=thr, late=late, ctor=ctor)
         o.optional = optional
         obs.append(o)
     widths = THOROUGH_W if tier == "thorough" else QUICK_W
@@ -786,6 +814,10 @@ def obligations(prop, tier, seed):
             add(t, w, "S", "eval", optional=False)
             add(t, w, "U", "eval", 4, optional=False)
             add(t, w, "U", "simp", 4, optional=False)
+            add(t, w, "U", "simp", 0, optional=False, ctor="oper")
+            add(t, w, "U", "eval", 0, optional=False, ctor="oper")
+            add(t, w, "U", "simp", 2, optional=False, late=True)
+            add(t, w, "U", "eval", 2, optional=False, late=True)
     rng = random.Random("routes/%s" % seed)
     for (rc, w, world) in recipes(tier, seed, prop):
         add(rc, w, world, "eval")
@@ -797,4 +829,8 @@ def obligations(prop, tier, seed):
             add(rc, w, world, "widening")
         elif k < 0.5:
             add(rc, w, world, rng.choice(("eval", "simp")), 4)
+        elif k < 0.62:
+            add(rc, w, world, rng.choice(("eval", "simp", "bitslice")), rng.choice((1, 2, 3)), late=True)
+        elif k < 0.8:
+            add(rc, w, world, rng.choice(("eval", "simp")), 0, ctor="oper")
     return [o for o in obs if prop in o.props]
